@@ -50,7 +50,9 @@ Definition check (c : case_t) : verdict :=
     let s := open_ok && view_eqb_nd v (view_of u)
              && list_eqb pair_eqb tflag (spec_camx_time (bdates u) (map fst hours))
              && list_eqb pair_eqb etflag (spec_camx_time (edates u) (map snd hours))
-             && zlist_eqb w2 w1 in
+             && zlist_eqb w2 w1
+             (* the written file carries the content's grid header (record 2: origin, cell sizes, counts) *)
+             && match unframe_all w1 with Some rs => zlist_eqb (nth 1 rs []) (nth 1 (to_records u) []) | None => false end in
     (f, s, 0%nat)
   | R8 ref recs w_ok written =>
     (zlist_eqb (frame recs) ref,
